@@ -180,10 +180,12 @@ pub fn run(tier: &Tier) -> i32 {
         ];
         crate::seqx::explore_sequences(&rep, &c, &focus, &crate::seqx::context_alphabet(), seq_depth, &crate::seqx::default_inits())
     };
+    // (iv) all 2^32 word operand pairs (quick: 2^26) x carry-in by direct calls of the instruction functions
+    let direct = crate::direct::run_group(&rep, &c, "arith", tier.name());
     let mut cov = Coverage::default();
     cov.exhaustive = true;
-    cov.rule = "every case = (source instruction, pre-state); executed through Preprocessor+Interpreter and compared in full (13 registers, flag word, 1 MB) with the reference ALU. (i) canonical register forms: all 2^16 byte operand pairs x carry-in x 4 prior flag words, word pairs over a boundary lattice squared, INC/DEC/NEG over all 2^8 / 2^16 values; (ii) every operand form of syntax.md (17 address forms x 5 segment choices, labels, immediates, register aliasing) x boundary values x carry-in. distinct_nontrivial = distinct (instruction, pre-state) pairs executed Word operands also run through 512 values away from the boundaries (every low byte under a fixed high byte and the reverse) against the lattice, both ways round, and through 8 fixed RELATIONS between the two operands (equal, low byte complemented, complemented, successor, bytes swapped, negated, doubled, halved+0x4000) for every 16-bit x. Histories: every sequence of up to 3 (thorough 4) instructions over the property's instructions plus a 22-instruction context alphabet (register, memory, stack and flag traffic, data-label operands, DS/ES loaded by pop and by mov), with at least one of the property's instructions, as ONE program on ONE machine and ONE Interpreter object from 3 initial states, compared with the reference after every step (whole memory on every 16th run)".into();
-    cov.bounds = json!({"byte_pairs": 65536, "word_lattice": wl.len(), "word_byte_structured_values": wbytes.len(), "word_relation_pairs": wrel.len(), "flag_words": 8, "forms": forms.len(), "sequence_depth": seq_depth, "sequences": seq.sequences, "sequence_steps": seq.steps, "sequence_whole_memory_audits": seq.audits, "tier": tier.name()});
+    cov.rule = "every case = (source instruction, pre-state); executed through Preprocessor+Interpreter and compared in full (13 registers, flag word, 1 MB) with the reference ALU. (i) canonical register forms: all 2^16 byte operand pairs x carry-in x 4 prior flag words, word pairs over a boundary lattice squared, INC/DEC/NEG over all 2^8 / 2^16 values; (ii) every operand form of syntax.md (17 address forms x 5 segment choices, labels, immediates, register aliasing) x boundary values x carry-in. distinct_nontrivial = distinct (instruction, pre-state) pairs executed Word operands also run through 512 values away from the boundaries (every low byte under a fixed high byte and the reverse) against the lattice, both ways round, and through 8 fixed RELATIONS between the two operands (equal, low byte complemented, complemented, successor, bytes swapped, negated, doubled, halved+0x4000) for every 16-bit x. Histories: every sequence of up to 3 (thorough 4) instructions over the property's instructions plus a 22-instruction context alphabet (register, memory, stack and flag traffic, data-label operands, DS/ES loaded by pop and by mov), with at least one of the property's instructions, as ONE program on ONE machine and ONE Interpreter object from 3 initial states, compared with the reference after every step (whole memory on every 16th run). Direct calls (separate binary vdirect, see bounds.direct): word_add/adc/sub/sbb/cmp for every first operand x every second operand (quick: 1 024 second operands per first operand, a different residue class each) x carry-in, result and the whole flag word compared with the reference".into();
+    cov.bounds = json!({"byte_pairs": 65536, "word_lattice": wl.len(), "word_byte_structured_values": wbytes.len(), "word_relation_pairs": wrel.len(), "flag_words": 8, "forms": forms.len(), "sequence_depth": seq_depth, "sequences": seq.sequences, "sequence_steps": seq.steps, "sequence_whole_memory_audits": seq.audits, "direct": direct, "tier": tier.name()});
     cov.assumptions = common_assumptions();
     let cov = finish_cov(&c, cov);
     if cov.extra.get("shapes").and_then(|v| v.as_u64()).unwrap_or(0) < 100 {
